@@ -28,19 +28,28 @@ class FileManager:
 
         zlines = zpage.read_text().split("\n")
         in_note = False
-        start_idx = len(zlines) - 1
+        start_idx: Optional[int] = None
         for i, line in enumerate(zlines):
             if line.startswith(("- ", "o ", "~ ", "x ", "< ", "> ")):
                 in_note = True
             if in_note and line.strip() == "":
                 in_note = False
                 start_idx = i
-        end_idx = start_idx + 1
-        new_zlines = (
-            zlines[:start_idx]
-            + note.to_string().split("\n")
-            + zlines[end_idx:]
-        )
+        note_lines = note.to_string().split("\n")
+        if start_idx is not None:
+            # Replace the blank line that ends the last block of notes (the
+            # note's text ends with a newline, so the blank line is kept).
+            end_idx = start_idx + 1
+            new_zlines = zlines[:start_idx] + note_lines + zlines[end_idx:]
+        else:
+            # No block of notes ends with a blank line (e.g. a page that only
+            # has a header or that does not end with a newline), so add the
+            # note to the very bottom WITHOUT replacing any existing line.
+            while zlines and zlines[-1].strip() == "":
+                zlines.pop()
+            if not in_note:
+                zlines.append("")
+            new_zlines = zlines + note_lines
         new_zcontents = "\n".join(new_zlines)
         zpage.write_text(new_zcontents)
         return None
